@@ -355,6 +355,16 @@ func (f *FileLogger) updateFile() {
 			continue // next rev
 		}
 
+		if openFlag&os.O_APPEND != 0 && f.filesize > 0 {
+			// appending to an existing file: a previous writer may have died in
+			// the middle of a record, never glue a new record to its torn tail
+			err = f.sealTornTail(absFilename)
+			if err != nil {
+				f.logf(lg.FATAL, "[%s/%s] unable to terminate the last line of %s: %s", f.topic, f.opts.Channel, absFilename, err)
+				os.Exit(1)
+			}
+		}
+
 		break // good file
 	}
 
@@ -364,6 +374,27 @@ func (f *FileLogger) updateFile() {
 	} else {
 		f.writer = f.out
 	}
+}
+
+// sealTornTail writes a newline to the just opened, non-empty f.out when the
+// last byte of the file is not one
+func (f *FileLogger) sealTornTail(name string) error {
+	r, err := os.Open(name)
+	if err != nil {
+		return err
+	}
+	defer r.Close()
+	last := make([]byte, 1)
+	_, err = r.ReadAt(last, f.filesize-1)
+	if err != nil {
+		return err
+	}
+	if last[0] == '\n' {
+		return nil
+	}
+	n, err := f.out.Write([]byte("\n"))
+	f.filesize += int64(n)
+	return err
 }
 
 func makeDirFromPath(logf lg.AppLogFunc, path string) error {
